@@ -318,6 +318,15 @@ impl crate::sys::StepOracle for C17LiveOracle {
                 Ok(x) => x,
                 Err(e) => return Verdict::Fail(format!("step {}: the factory no longer finds pair{} after an owner operation: {}", cx.index, p, e)),
             };
+            // the factory's record of a pair is the pair's own description of itself, member for member (C16 states
+            // it for creation; nothing an owner does afterwards may separate the two)
+            if own != rec {
+                let (_, _, supply) = w.pool(p);
+                return Verdict::Fail(format!(
+                    "step {}: after an owner operation the factory's record of pair{} (LP supply {}) is {:?} but the pair describes itself as {:?}",
+                    cx.index, p, supply, rec, own
+                ));
+            }
             if own.asset_decimals != want || rec.asset_decimals != want {
                 let (_, _, supply) = w.pool(p);
                 return Verdict::Fail(format!(
@@ -347,7 +356,7 @@ impl crate::sys::StepOracle for C17LiveOracle {
     }
 }
 
-fn run_live(t: &Tape, want_desc: bool) -> CaseResult {
+pub fn run_live(t: &Tape, want_desc: bool) -> CaseResult {
     let mut o = C17LiveOracle::default();
     let h = crate::sys::run_history(t, &ADMINISTERED, 13, &mut o, want_desc);
     crate::sys::hist_case(t, h)
@@ -379,5 +388,5 @@ pub fn suites() -> Vec<Suite> {
     }]
 }
 
-pub const RULE: &str = "case = factory world (5-9 prefix-sharing denoms, some unregistered, 0-3 cw20 tokens) + history of <= 14 operations, each a burst of 1..40 fresh pair creations, a re-registration of a registered denom (4/5 biased to denoms that are in some pair), a first registration, or the registration of an upper-case look-alike of a registered denom (a different coin); after EVERY single creation / registration: NativeTokenDecimals of every registered denom == model; for every registered pair factory.Pair.asset_decimals == pair.Pair{}.asset_decimals == model (new value in the position of the updated denom, everything else untouched); non-trivial = a re-registration with >= 1 affected pair; histogram tracks the registry size class (1-9, 10, 11-30, 31+), the position of the denom and the pair kind; distinct = hash of the tape";
+pub const RULE: &str = "case = factory world (5-9 prefix-sharing denoms, some unregistered, 0-3 cw20 tokens) + history of <= 14 operations, each a burst of 1..40 fresh pair creations, a re-registration of a registered denom (4/5 biased to denoms that are in some pair), a first registration, or the registration of an upper-case look-alike of a registered denom (a different coin); after EVERY single creation / registration: NativeTokenDecimals of every registered denom == model; for every registered pair factory.Pair.asset_decimals == pair.Pair{}.asset_decimals == model (new value in the position of the updated denom, everything else untouched); non-trivial = a re-registration with >= 1 affected pair; histogram tracks the registry size class (1-9, 10, 11-30, 31+), the position of the denom and the pair kind; distinct = hash of the tape Suite live_pairs: case = trading world + history of <= 24 operations (profile 'administered': provisions, withdrawals, swaps, routes, donations, and 1 operation in 7 owner administration - re-registration of a denom, the decimals update sent straight to a pair, configuration update, pair migration to either code id, factory migration); after EVERY successful operation of the owner, for EVERY pair: the factory's Pair record == the pair's own Pair answer (all members) and both carry the currently registered decimals; non-trivial = a re-registration of a denom traded by a FUNDED pair";
 pub const ASSUMPTIONS: &[&str] = &["cw-multi-test chain model"];
